@@ -9,6 +9,7 @@ node z) and abstract time offsets (0..w-1); a *flavour* maps them to concrete id
                                       nodes: tuple of indices (for 'from': tuple of pairs)
   ('node', i, a)                      add_node(n, **ATTRS[a])
   ('nodes', (i, j), a)                add_nodes_from([..], **ATTRS[a])
+  ('nodes2', (i, j))                  add_nodes_from([(n, {2019: 'x', 'node_for_adding': 1}), ...])   attribute keys that are no identifiers
   ('uattr', i, a)                     update_node_attr(n, **ATTRS[a])          (only if n is in the graph)
   ('uattrs', (i, j), a)               update_node_attr_from([..], **ATTRS[a])  (nodes in the graph only)
   ('observe',)                        a bundle of read-only queries in the middle of a history (primes any hidden cache)
@@ -30,14 +31,15 @@ FLAVOURS = {
     2: dict(name='int10-o-3', ids=[12, 10, 11, 13], z=19, origin=-3),
     3: dict(name='tuple-o100', ids=[(1, 'x'), (0, 'y'), (2, 'x'), (3, 'w')], z=(9, 'q'), origin=100),
     # non-ASCII string ids: only used by the file I/O properties (C09, C10)
-    4: dict(name='str-nonascii-o7', ids=['\u00e9', 'a', '\u00fc', 'd'], z='z', origin=7),
+    4: dict(name='str-nonascii-hash-o7', ids=['\u00e9', 'a#1', '\u00fc', 'd'], z='z', origin=7, comments='!'),
     # numpy integer instants (an integer type that is not a subclass of int)
     5: dict(name='int-npint64-o5', ids=[0, 1, 2, 3], z=9, origin=5, timetype=_np64),
     # mutually incomparable hashable ids
-    6: dict(name='mixed-ids-o3', ids=[0, 'a', (1, 'x'), frozenset({1, 2})], z=frozenset({7}), origin=3),
+    6: dict(name='mixed-ids-o3', ids=[0, 'a', (0, 'a'), frozenset({1, 2})], z=frozenset({7}), origin=3),   # the third id is the tuple of the first two
 }
 
 # node-attribute payloads (index 0 = none); nested mutables on purpose (C06/C11/C16)
+ATTRS2 = {2019: 'x', 'node_for_adding': 1}      # keys that cannot travel as **kwargs
 ATTRS = [
     {},
     {'label': 'A'},
@@ -210,8 +212,11 @@ def alphabet_U2(conf, bulk=True, nodes=True):
         # long bulk calls: a 10-link walk that revisits a hub and a 9-element bunch with interleaved sources
         ops.append(('bulk', 'path', 'm', (0, 1, 2, 0, 3, 1, 3, 2, 1, 0, 2), 1, None))
         ops.append(('bulk', 'from', 'm', ((0, 1), (2, 3), (0, 2), (1, 3), (0, 3), (2, 1), (3, 0), (1, 2), (0, 0)), w - 1, None))
+        ops.append(('bulk', 'from3', 'm', ((0, 1), (1, 2)), 2, None))
+        ops.append(('bulk', 'from3', 'm', ((1, 0), (0, 0)), 1, w))
     if nodes:
-        ops += [('node', 3, 0), ('node', 3, 2), ('node', 0, 1), ('nodes', (2, 3), 1), ('uattr', 0, 2), ('uattr', 3, 1), ('uattrs', (0, 1), 1)]
+        ops += [('node', 3, 0), ('node', 3, 2), ('node', 0, 1), ('nodes', (2, 3), 1), ('uattr', 0, 2), ('uattr', 3, 1), ('uattrs', (0, 1), 1),
+                ('nodes2', (0, 3))]
     return ops
 
 
@@ -252,8 +257,8 @@ def op_concrete(conf, op):
         return 'add_interaction(%r, %r)' % (n(op[1]), n(op[2]))
     if k == 'bulk':
         _, kind, form, ns, t, e = op
-        if kind == 'from':
-            arg = [(n(a), n(b)) for a, b in ns]
+        if kind in ('from', 'from3'):
+            arg = [(n(a), n(b)) + (({'t': [[T(0), T(1)]], 'w': 1},) if kind == 'from3' else ()) for a, b in ns]
             name = 'add_interactions_from'
         else:
             arg = [n(a) for a in ns]
@@ -264,6 +269,8 @@ def op_concrete(conf, op):
         return 'add_node(%r, **%r)' % (n(op[1]), ATTRS[op[2]])
     if k == 'nodes':
         return 'add_nodes_from(%r, **%r)' % ([n(i) for i in op[1]], ATTRS[op[2]])
+    if k == 'nodes2':
+        return 'add_nodes_from(%r)' % ([(n(i), ATTRS2) for i in op[1]],)
     if k == 'observe':
         return 'observe_bundle(G)   # read-only queries: ids, counts, stream, interactions, nodes, degrees, neighbours'
     if k in ('clear', 'clear_edges'):
@@ -279,7 +286,7 @@ def bulk_elements(op):
     """the (i, j) pairs a bulk op feeds to add_interaction, in order"""
     _, kind, form, ns, t, e = op
     ns = list(ns)
-    if kind == 'from':
+    if kind in ('from', 'from3'):
         return [tuple(p) for p in ns]
     if kind == 'path':
         return list(zip(ns[:-1], ns[1:]))
@@ -312,6 +319,9 @@ def apply_op(G, conf, op):
             kw = {} if e is None else {'e': T(e)}
             if kind == 'from':
                 G.add_interactions_from([(n(a), n(b)) for a, b in ns], T(t), **kw)
+            elif kind == 'from3':
+                # the documented 3-tuple form (u, v, d): d as handed out by interactions() of another graph
+                G.add_interactions_from([(n(a), n(b), {'t': [[T(0), T(1)]], 'w': 1}) for a, b in ns], T(t), **kw)
             else:
                 arg = [n(a) for a in ns]
                 if form == 'm':
@@ -322,6 +332,8 @@ def apply_op(G, conf, op):
             G.add_node(n(op[1]), **copy.deepcopy(ATTRS[op[2]]))
         elif k == 'nodes':
             G.add_nodes_from([n(i) for i in op[1]], **copy.deepcopy(ATTRS[op[2]]))
+        elif k == 'nodes2':
+            G.add_nodes_from([(n(i), dict(ATTRS2)) for i in op[1]])
         elif k == 'observe':
             observe_bundle(G)
         elif k == 'clear':
